@@ -245,21 +245,6 @@ Fixpoint live_fresh (mx : nat) (s : st) (ops : list op) : bool :=
     && live_fresh mx (fst (step mx s o)) r
   end.
 
-(* messages an op may add to the channel of qid q *)
-Definition sends_of (q : N) (o : op) : nat :=
-  match o with
-  | Cancel q' | Complete q' | Fail q' => if q' =? q then 1%nat else O
-  | Fire q' => if q' =? q then 2%nat else O
-  | _ => O
-  end.
-Fixpoint sends (q : N) (ops : list op) : nat :=
-  match ops with [] => O | o :: r => (sends_of q o + sends q r)%nat end.
-Definition op_qid (o : op) : N :=
-  match o with Start q _ _ | Cancel q | Fire q | Complete q | Fail q | Delete q | Recv q => q | Pull => 0 end.
-(* the guard of the no-block theorem: at most 8 messages besides READY, RUNNING are ever sent per qid *)
-Definition send_budget_ok (ops : list op) : bool :=
-  forallb (fun o => Nat.leb (sends (op_qid o) ops) 8) ops.
-
 (* ------------------------------------------------------------------ *)
 (* PRE-FIX documentation: querystatus.go before fixes/C17-cancel-waiting-query and
    fixes/C17-release-timeout-watcher.  No longer the code.
